@@ -3,7 +3,7 @@ import Svgbob.Model.Doc
 # Lexical safety of everything the serializer writes
 
 `TextSafe l`: `l` is character data an XML parser reads back without seeing markup: a sequence of
-atoms, each either one character that XML can represent and that is neither `<` nor `&`, or one
+atoms, each either one character that XML can represent and that is none of `<`, `&`, `>`, or one
 of the character/entity references the escaping functions emit.
 -/
 namespace Svgbob
@@ -12,7 +12,7 @@ def refs : List (List Char) :=
   ["&gt;".toList, "&lt;".toList, "&amp;".toList, "&#39;".toList, "&quot;".toList, "&#13;".toList]
 
 /-- a plain character of character data -/
-def plainChar (c : Char) : Bool := xmlChar c && c != '<' && c != '&'
+def plainChar (c : Char) : Bool := xmlChar c && c != '<' && c != '&' && c != '>'
 
 inductive TextSafe : List Char → Prop
   | nil : TextSafe []
@@ -47,8 +47,8 @@ theorem replaceHtmlChar_safe (c : Char) : TextSafe (replaceHtmlChar c) := by
   · rename_i h1 h2 h3 h4 h5 h6 hx
     refine TextSafe.plain c [] ?_ TextSafe.nil
     simp only [plainChar, hx, Bool.true_and, Bool.and_eq_true, bne_iff_ne, ne_eq]
-    simp only [beq_iff_eq] at h2 h3
-    exact ⟨h2, h3⟩
+    simp only [beq_iff_eq] at h1 h2 h3
+    exact ⟨⟨h2, h3⟩, h1⟩
   · exact TextSafe.nil
 
 /-- **Every text node is safe character data**, whatever the input characters. -/
@@ -73,8 +73,8 @@ theorem escapeCssChar_safe (c : Char) :
   · rename_i h1 h2 h3 hx
     refine TextSafe.plain c [] ?_ TextSafe.nil
     simp only [plainChar, hx, Bool.true_and, Bool.and_eq_true, bne_iff_ne, ne_eq]
-    simp only [beq_iff_eq] at h1 h2
-    exact ⟨h1, h2⟩
+    simp only [beq_iff_eq] at h1 h2 h3
+    exact ⟨⟨h1, h2⟩, h3⟩
   · exact TextSafe.nil
 
 /-- **The style sheet text is safe character data**, whatever the legend (and the settings
@@ -110,7 +110,7 @@ theorem TextSafe.all_xmlChar {l : List Char} (h : TextSafe l) : ∀ c ∈ l, xml
   | plain c rest hc _ ih =>
     intro d hd
     rcases List.mem_cons.mp hd with rfl | hd
-    · simp [plainChar] at hc; exact hc.1.1
+    · simp [plainChar] at hc; exact hc.1.1.1
     · exact ih d hd
   | ref r rest hr _ ih =>
     intro d hd
